@@ -45,6 +45,7 @@ type c09Case struct {
 	Profile string   `json:"profile,omitempty"` // hex of the serialized (uncompressed) profile
 	Bases   []string `json:"bases,omitempty"`   // hex of base profiles: passed as -base / -diff_base sources
 	Diff    bool     `json:"diff_base,omitempty"`
+	NoPre   bool     `json:"nopre,omitempty"`  // web: skip the child-process preflight (name grid: only strings that loading does not interpret)
 	Remote  bool     `json:"remote,omitempty"` // the profile is fetched from an http:// URL (served by the harness) instead of a file
 	Args    []string `json:"args_hex,omitempty"`
 	Env     []string `json:"env,omitempty"`
@@ -1017,7 +1018,7 @@ func c09Web(c *Ctx, cs *c09Case) {
 	if err != nil {
 		return
 	}
-	if !c09Preflight(c, c09TheEnv, p, nil) {
+	if !cs.NoPre && !c09Preflight(c, c09TheEnv, p, nil) {
 		c.Res.Hit("web/preflight-crash")
 		return
 	}
@@ -1074,7 +1075,7 @@ func c09Web(c *Ctx, cs *c09Case) {
 			c.Res.Hit("web/no-handler")
 			continue
 		}
-		st, _, pn, hang, hsite := c09ServeSite(h, path, q)
+		st, body, pn, hang, hsite := c09ServeSite(h, path, q)
 		one := *cs
 		one.Lines = hexAll([]string{rq})
 		one.Text = fmt.Sprintf("GET %q on %s", rq, text)
@@ -1087,6 +1088,14 @@ func c09Web(c *Ctx, cs *c09Case) {
 			c.Violation("C09/hang/"+hsite, "web handler does not answer within "+c09InprocTimeout.String()+": "+one.Text, &one)
 			c.Res.Hit("web/hang")
 			return // the stuck handler keeps a CPU busy; stop using this server
+		case st >= 500 && !(st == http.StatusNotImplemented && path == "/"):
+			// (501 from "/" only says that graphviz is not installed here.) Any other 5xx means the
+			// handler failed internally instead of producing the page or reporting a user error.
+			c.Violation(fmt.Sprintf("C09/web/status-%d%s", st, path), fmt.Sprintf("web handler answers %d (%s) on %s", st, c09Trunc(c09FirstLine(body), 120), one.Text), &one)
+			c.Res.Hit(fmt.Sprintf("web/status=%d", st))
+		case st == 200 && len(body) == 0 && path != "/saveconfig" && path != "/deleteconfig":
+			c.Violation("C09/web/empty-reply"+path, "web handler answers 200 with an empty body (no page, no error) on "+one.Text, &one)
+			c.Res.Hit("web/empty-reply")
 		default:
 			c.Res.Hit(fmt.Sprintf("web/status=%d", st))
 		}
@@ -1105,7 +1114,7 @@ func c09Web(c *Ctx, cs *c09Case) {
 
 func runC09(c *Ctx) {
 	c.Res.Rule = "correspondence (in-process, exported plug-in API): -tagfocus values vs model outcome class; interactive sessions with a scripted UI vs the model's per-line events, output file, active filters and final option values; candidate-binary counts of locateBinaries; command/option tables. " +
-		"Campaign (real pprof binary, one process per case; web handlers through the HTTPServer hook): first a deterministic grid of every output command x every option that changes graph construction or trimming (alone and with call_tree) x two trimming settings on a profile with several calling contexts per function, and every string-valued option x values whose byte and rune lengths straddle the size limits (long ASCII, 2-/3-/4-byte characters, combining marks, invalid UTF-8); then valid profiles with odd strings/ids/addresses/line numbers/0-1-2-character build ids/labels/units and per-column value patterns (one column zero, all zero, only one column non-zero, cancelling +v/-v, MinInt64/MaxInt64, negative, ones) x option assignments; every fourth CLI/script case and every third web UI also gets -base/-diff_base profiles (same, same stacks with another value pattern, subset, other profile with the same types, reordered/renamed types, unrelated) and the boolean/choice/sample_index option grid (mean, normalize, relative_percentages, call_tree, drop_negative, noinlines, showcolumns, trim, granularity, sort, each sample type) x option assignments (every 8th case fetches its profile from an http URL served by the harness, with faults on the path that saves the local copy: unusable PPROF_TMPDIR/HOME/TMPDIR, file names from profile strings with separators, NUL, over-long) x interactive scripts (grammar + noise + mutation operators over valid lines: case changes incl. unicode case variants of command/option names, digit abbreviations, separator noise, redirections and pipes with odd targets, prefixes/suffixes/concatenations of command names, mixed-case help) x URL query strings; failing input = panic trace, recovered panic, hang, abnormal exit, or a session/server that stops answering. " +
+		"Campaign (real pprof binary, one process per case; web handlers through the HTTPServer hook): first a deterministic grid of every output command x every option that changes graph construction or trimming (alone and with call_tree) x two trimming settings on a profile with several calling contexts per function, every name-like profile string (function/system name, file names, label keys and values, sample type/unit/comment) x separator adversaries as prefix, suffix and whole name (CLI and every web endpoint); and every string-valued option x values whose byte and rune lengths straddle the size limits (long ASCII, 2-/3-/4-byte characters, combining marks, invalid UTF-8); then valid profiles with odd strings/ids/addresses/line numbers/0-1-2-character build ids/labels/units and per-column value patterns (one column zero, all zero, only one column non-zero, cancelling +v/-v, MinInt64/MaxInt64, negative, ones) x option assignments; every fourth CLI/script case and every third web UI also gets -base/-diff_base profiles (same, same stacks with another value pattern, subset, other profile with the same types, reordered/renamed types, unrelated) and the boolean/choice/sample_index option grid (mean, normalize, relative_percentages, call_tree, drop_negative, noinlines, showcolumns, trim, granularity, sort, each sample type) x option assignments (every 8th case fetches its profile from an http URL served by the harness, with faults on the path that saves the local copy: unusable PPROF_TMPDIR/HOME/TMPDIR, file names from profile strings with separators, NUL, over-long) x interactive scripts (grammar + noise + mutation operators over valid lines: case changes incl. unicode case variants of command/option names, digit abbreviations, separator noise, redirections and pipes with odd targets, prefixes/suffixes/concatenations of command names, mixed-case help) x URL query strings; failing input = panic trace, recovered panic, hang, abnormal exit, or a session/server that stops answering. " +
 		"Non-trivial: tagfilter values containing a digit; sessions with at least one assignment or report line; locate cases with a build id; CLI cases that got past flag parsing and profile loading; scripts whose session started; web requests answered 200/400."
 	e := c09Setup()
 	if f := flag.Lookup("replay"); c.Replay == "" || (f != nil && f.Value.String() != "") {
@@ -1291,6 +1300,25 @@ func runC09(c *Ctx) {
 	if want("tables") {
 		c09Tables(c)
 	}
+	// ---- name adversaries through the web handlers (deterministic)
+	if want("names") {
+		// the granularity is given explicitly: in a long-lived process it is sticky (an earlier session may
+		// have left "lines", which appends ":<line>" to every name and hides name-parsing defects)
+		reqs := []string{"/flamegraph?g=functions", "/flamegraph?g=filefunctions", "/flamegraph?g=files", "/flamegraph?g=lines", "/flamegraph?g=addresses",
+			"/top?g=functions", "/top?g=addresses", "/peek?f=.&g=functions", "/source?f=.", "/disasm?f=.", "/?f=.&g=functions", "/download"}
+		for _, nc := range c09NameCases() {
+			if nc.preflight && !c09Preflight(c, e, nc.p, nil) {
+				continue
+			}
+			pb := c09ProfileBytes(nc.p)
+			if pb == nil {
+				continue
+			}
+			c09Web(c, &c09Case{Kind: "web", NoPre: true, Profile: hex.EncodeToString(pb), Lines: hexAll(reqs), Text: "web UI on <grid profile with " + nc.what + ">"})
+			c.Res.Hit("names/web-profiles")
+		}
+	}
+
 	if want("tagfilter") {
 		// deterministic: every pair of unit spellings as a two-bound range (unit table drift between
 		// the model's scaleUnitTable and internal/measurement shows up on every seed)
@@ -1355,6 +1383,11 @@ func runC09(c *Ctx) {
 				reqs = append(reqs, path+"?"+c09GridQuery(rw, c09TypeNames(p)))
 			} else {
 				reqs = append(reqs, path+"?"+c09Query(rw, c09TypeNames(p), i%4 == 0))
+			}
+		}
+		for j := range reqs { // the process-wide granularity is sticky: give it explicitly in half of the requests
+			if !strings.Contains(reqs[j], "g=") && rw.Chance(50) {
+				reqs[j] += "&g=" + rw.Pick([]string{"functions", "filefunctions", "files", "lines", "addresses"})
 			}
 		}
 		cs.Lines = hexAll(reqs)
